@@ -2,9 +2,10 @@
 // specs/C15 (key fallback_for) and decides, bounded, when that unit can no longer read a restructured function.
 //
 // (a) rejection  c15_<metric>_rejects_{2v3,3v2}:  "accuracy, precision, recall, F-beta, MSE, MAE and R^2 never return
-//     normally on vectors of unequal length".  #[kani::should_panic], FIXED lengths 2 vs 3 and 3 vs 2, values symbolic
-//     (labels from {0.0, 1.0} for the binary metrics so that the only reason to panic is the length).  In /repo the panic
-//     precedes every arithmetic operation, so these are float-free there.
+//     normally on vectors of unequal length".  #[kani::should_panic], FIXED lengths 2 vs 3 and 3 vs 2, values chosen
+//     symbolically from {0.0, 1.0} for the binary metrics (so that the only reason to panic is the length) and from
+//     {0.0, 1.0, 2.0} otherwise.  In /repo the panic precedes every arithmetic operation, so these are float-free there;
+//     the constant value sets keep a changed function that does reach its arithmetic decidable (violation, not timeout).
 //     AUC has no rejection harness: the property's rejection clause names the pairwise metrics only, and the code does not
 //     check lengths (2 labels vs 3 scores returns normally whenever the two smallest scores are at index 0 and 1).
 // (b) values, on the success path, without float arithmetic on unconstrained symbolic floats:
@@ -53,12 +54,12 @@ macro_rules! rejects {
             let mut b: Vec<f64> = Vec::with_capacity(NB);
             let mut i = 0;
             while i < NA {
-                a.push(if $binary { pick2(kani::any()) } else { kani::any() });
+                a.push(if $binary { pick2(kani::any()) } else { pick3(kani::any()) });
                 i += 1;
             }
             let mut i = 0;
             while i < NB {
-                b.push(if $binary { pick2(kani::any()) } else { kani::any() });
+                b.push(if $binary { pick2(kani::any()) } else { pick3(kani::any()) });
                 i += 1;
             }
             let f = $call;
@@ -232,25 +233,30 @@ macro_rules! auc_value {
                 a += 1;
             }
             let res: f64 = auc::AUC {}.get_score(&y, &s);
-            let mut pp = 1;
-            while pp < N {
-                let den2 = 2 * pp * (N - pp);
-                let mut k = 0;
-                while k <= den2 {
-                    if pos == pp && twice_num == k {
-                        assert!(
-                            res == k as f64 / den2 as f64,
-                            "AUC::get_score: the result is P(score of a positive > score of a negative) + 1/2 P(tie) over all (positive, negative) pairs"
-                        );
+            // expected value: table lookup (built at compile time from concrete integers), no loop, no symbolic division
+            const D2: usize = 2 * (N / 2) * (N - N / 2); // largest 2*pos*neg
+            const TABLE: [[f64; D2 + 1]; N] = {
+                let mut t = [[0.0f64; D2 + 1]; N];
+                let mut pp = 1;
+                while pp < N {
+                    let mut k = 0;
+                    while k <= D2 {
+                        t[pp][k] = k as f64 / (2 * pp * (N - pp)) as f64;
+                        k += 1;
                     }
-                    k += 1;
+                    pp += 1;
                 }
-                pp += 1;
-            }
+                t
+            };
+            assert!(twice_num <= 2 * pos * neg && twice_num <= D2, "harness: pair count within range");
+            assert!(
+                res == TABLE[pos][twice_num],
+                "AUC::get_score: the result is P(score of a positive > score of a negative) + 1/2 P(tie) over all (positive, negative) pairs"
+            );
             kani::cover!(pos == 1 && twice_num == 1);
         }
     };
 }
-auc_value!(c15_auc_value_n2, 2, 6);
-auc_value!(c15_auc_value_n3, 3, 8);
-auc_value!(c15_auc_value_n4, 4, 10);
+auc_value!(c15_auc_value_n2, 2, 3);
+auc_value!(c15_auc_value_n3, 3, 4);
+auc_value!(c15_auc_value_n4, 4, 5);
